@@ -76,6 +76,7 @@ type Term struct {
 	W    int
 	S    *Sort
 	id   int
+	h    uint64 // structural hash: independent of creation order (used for canonical ordering)
 	// cached range info for Int terms (nil = unknown)
 	lo, hi *big.Int
 	rng    bool
@@ -124,8 +125,41 @@ func (f *Factory) intern(t *Term) *Term {
 	}
 	f.n++
 	t.id = f.n
+	// structural hash (FNV-1a over op, name, width, sort, constant and child hashes)
+	h := uint64(14695981039346656037)
+	mix := func(x uint64) {
+		for i := 0; i < 8; i++ {
+			h ^= (x >> (8 * uint(i))) & 0xff
+			h *= 1099511628211
+		}
+	}
+	mixs := func(s string) {
+		for i := 0; i < len(s); i++ {
+			h ^= uint64(s[i])
+			h *= 1099511628211
+		}
+		mix(uint64(len(s)))
+	}
+	mix(uint64(t.Op))
+	mixs(t.Name)
+	mix(uint64(t.W))
+	mixs(t.S.Name)
+	if t.K != nil {
+		mixs(t.K.String())
+	}
+	for _, a := range t.Args {
+		mix(a.h)
+	}
+	t.h = h
 	f.tab[k] = t
 	return t
+}
+
+func termLess(a, b *Term) bool {
+	if a.h != b.h {
+		return a.h < b.h
+	}
+	return a.id < b.id
 }
 
 func (f *Factory) Int(k *big.Int) *Term { return f.intern(&Term{Op: OConst, K: new(big.Int).Set(k), S: SInt}) }
@@ -240,7 +274,7 @@ func (f *Factory) fromPoly(ms []mono) *Term {
 	var out []mono
 	for _, m := range ms {
 		as := append([]*Term(nil), m.atoms...)
-		sort.Slice(as, func(i, j int) bool { return as[i].id < as[j].id })
+		sort.Slice(as, func(i, j int) bool { return termLess(as[i], as[j]) })
 		k := monoKey(as)
 		if i, ok := idx[k]; ok {
 			out[i].c = new(big.Int).Add(out[i].c, m.c)
@@ -262,7 +296,7 @@ func (f *Factory) fromPoly(ms []mono) *Term {
 	if len(terms) == 1 {
 		return terms[0]
 	}
-	sort.Slice(terms, func(i, j int) bool { return terms[i].id < terms[j].id })
+	sort.Slice(terms, func(i, j int) bool { return termLess(terms[i], terms[j]) })
 	return f.intern(&Term{Op: OAdd, Args: terms, S: SInt})
 }
 
@@ -572,7 +606,7 @@ func (f *Factory) Eq(a, b *Term) *Term {
 			return r
 		}
 	}
-	if a.id > b.id {
+	if termLess(b, a) {
 		a, b = b, a
 	}
 	return f.intern(&Term{Op: OEq, Args: []*Term{a, b}, S: SBool})
@@ -1211,7 +1245,7 @@ func (f *Factory) bitop(op Op, w int, a, b *Term) *Term {
 			return f.Add(a, b)
 		}
 	}
-	if a.id > b.id {
+	if termLess(b, a) {
 		a, b = b, a
 	}
 	return f.intern(&Term{Op: op, W: w, Args: []*Term{a, b}, S: SInt})
